@@ -343,6 +343,8 @@ RulesTokenExchange(a, o) ==
          /\ (o.idt.name # "none" => o.idt.sub = wantSub)
          /\ (o.rt.name \notin {"none", "unknown"} => o.rt.sub = wantSub /\ o.rt.client = a.caller)>>,
     <<"C15.policy.actor", (ok /\ hasActor /\ LiveRef(a.actor)) => o.actor = SubOfRef(a.actor)>>,
+    \* "... yields an OAuth error": whatever is not a success is an OAuth error document with an error status
+    <<"C15.refused.oauthError", (~ok) => (o.class = "json" /\ o.status >= 400 /\ o.doc)>>,
     <<"C05.refused.doc",  (~ok) => (o.status >= 400 /\ o.doc)>> }
 
 RulesClientCreds(a, o) ==
